@@ -41,6 +41,26 @@ package wire
 //@   ensures [fail-stop] old(#failed) ==> result != nil
 //@   modifies WriterState(writer), Out()
 
+//@ func errorResponse
+//@   props C02 C17 C05 C06 C10 C13 C01 C04
+//@   requires WriterReady(writer)
+//@   requires [nulfree-text] {C02 C17} err != nil ==> ErrTextOK(err)
+//@   ensures [E-only] result == nil ==> (#nE == old(#nE) + 1 && #nZ == old(#nZ) && #nOut == old(#nOut) + 1 && #last == 'E' && #cyc == cycStep(old(#cyc), 'E') && #failed == old(#failed))
+//@   ensures [failed] result != nil ==> (#failed && #nZ == old(#nZ) && old(#nE) <= #nE && #nE <= old(#nE) + 1 && old(#nOut) <= #nOut && #nOut <= old(#nOut) + 1)
+//@   ensures [fail-stop] old(#failed) ==> result != nil
+//@   ensures [err-kind] result != nil ==> SinkErr(result)
+//@   ensures [nil-internal-fatal] {C17} (result == nil && err == nil) ==> (#E_S == "FATAL" && #E_C == "XX000" && #E_M == "unknown error, an internal process attempted to throw an error" && #E_mask == 7)
+//@   ensures [field-severity] {C17} (result == nil && err != nil) ==> #E_S == (specSeverity(err) == "" ? "ERROR" : specSeverity(err))
+//@   ensures [field-code] {C17} (result == nil && err != nil) ==> #E_C == specCode(err)
+//@   ensures [field-message] {C17} (result == nil && err != nil) ==> #E_M == msgOf(err)
+//@   ensures [field-hint] {C17} (result == nil && err != nil) ==> (hasbit(#E_mask, 16) <==> specHint(err) != "") && (specHint(err) != "" ==> #E_H == specHint(err))
+//@   ensures [field-detail] {C17} (result == nil && err != nil) ==> (hasbit(#E_mask, 8) <==> specDetail(err) != "") && (specDetail(err) != "" ==> #E_D == specDetail(err))
+//@   ensures [field-source] {C17} (result == nil && err != nil) ==> ((hasbit(#E_mask, 32) <==> specHasSource(err)) && (hasbit(#E_mask, 64) <==> specHasSource(err)) && (hasbit(#E_mask, 128) <==> specHasSource(err)) && (specHasSource(err) ==> (#E_F == specSrcFile(err) && #E_L == itoa(specSrcLine(err)) && #E_R == specSrcFunc(err))))
+//@   ensures [field-constraint] {C17} (result == nil && err != nil) ==> (hasbit(#E_mask, 256) <==> specConstraint(err) != "") && (specConstraint(err) != "" ==> #E_n == specConstraint(err))
+//@   ensures [mandatory] {C17 C02} result == nil ==> (hasbit(#E_mask, 1) && hasbit(#E_mask, 2) && hasbit(#E_mask, 4))
+//@   ensures [writer-reset] writer.err == nil && writer.frame.#blen == 0
+//@   modifies WriterState(writer), Out()
+
 //@ func ErrorCode
 //@   props C02 C17 C05 C06 C10 C13 C01 C04
 //@   requires WriterReady(writer)
@@ -662,6 +682,7 @@ package wire
 //@   requires [caches-wellformed] PortalsWF(srv)
 //@   ensures [P-reply] {C06} (result == nil && #nE == old(#nE)) ==> (#nOut == old(#nOut) + 1 && #last == '1')
 //@   ensures [P-error-once] {C06} #nE <= old(#nE) + 1 && #nE >= old(#nE)
+//@   ensures [error-starts-discard] {C06} (#nE > old(#nE) ==> srv.discard) && ((#nE == old(#nE) && !#failed) ==> srv.discard == old(srv.discard))
 //@   ensures [no-Z-unless-Sync] {C06} #nZ == old(#nZ)
 //@   ensures [err-kind] result != nil ==> !isExceeded(result)
 //@   callsite iface:wire.StatementCache.Set [stores-under-name] {C07} $name == name && $fn == statement && $ctx == ctx
@@ -672,7 +693,7 @@ package wire
 //@   ensures [ok] HOK(srv, reader, writer, ctx)
 //@   ensures [own-maps] OwnMaps(srv)
 //@   ensures [nZ-monotone] #nZ >= old(#nZ)
-//@   modifies HandlerEffects(srv, reader, writer, ctx)
+//@   modifies ExtHandlerEffects(srv, reader, writer, ctx)
 //@   loop 0
 //@     invariant [range] 0 <= i && i <= parameters
 //@     decreases parameters - i
@@ -682,6 +703,7 @@ package wire
 //@   requires HOK(srv, reader, writer, ctx)
 //@   requires [caches-wellformed] PortalsWF(srv)
 //@   ensures [D-error-once] {C06} #nE <= old(#nE) + 1 && #nE >= old(#nE)
+//@   ensures [error-starts-discard] {C06} (#nE > old(#nE) ==> srv.discard) && ((#nE == old(#nE) && !#failed) ==> srv.discard == old(srv.discard))
 //@   ensures [no-Z-unless-Sync] {C06} #nZ == old(#nZ)
 //@   ensures [err-kind] result != nil ==> !isExceeded(result)
 //@   atreturn [D-statement-reply] {C06} (result == nil && #nE == old(#nE) && old(mem(arr(reader.Msg), off(reader.Msg))) == 'S') ==> (#nOut == old(#nOut) + 2 && (#last == 'T' || #last == 'n'))
@@ -697,7 +719,7 @@ package wire
 //@   ensures [ok] HOK(srv, reader, writer, ctx)
 //@   ensures [own-maps] OwnMaps(srv)
 //@   ensures [nZ-monotone] #nZ >= old(#nZ)
-//@   modifies HandlerEffects(srv, reader, writer, ctx)
+//@   modifies ExtHandlerEffects(srv, reader, writer, ctx)
 
 //@ func (*Session).handleBind
 //@   props C06 C07 C08 C18 C02 C04
@@ -706,6 +728,7 @@ package wire
 //@   ensures [B-reply] {C06} (result == nil && #nE == old(#nE)) ==> (#nOut == old(#nOut) + 1 && #last == '2')
 //@   ensures [B-error-once] {C06} #nE <= old(#nE) + 1 && #nE >= old(#nE)
 //@   ensures [err-kind] result != nil ==> !isExceeded(result)
+//@   ensures [error-starts-discard] {C06} (#nE > old(#nE) ==> srv.discard) && ((#nE == old(#nE) && !#failed) ==> srv.discard == old(srv.discard))
 //@   ensures [no-Z-unless-Sync] {C06} #nZ == old(#nZ)
 //@   atreturn [unknown-name-E] {C06} (stmt == nil && err == nil) ==> (#nE == old(#nE) + 1 || #failed)
 //@   callsite iface:wire.StatementCache.Get [by-name] {C07} $name == statement
@@ -715,13 +738,14 @@ package wire
 //@   ensures [ok] HOK(srv, reader, writer, ctx)
 //@   ensures [own-maps] OwnMaps(srv)
 //@   ensures [nZ-monotone] #nZ >= old(#nZ)
-//@   modifies HandlerEffects(srv, reader, writer, ctx)
+//@   modifies ExtHandlerEffects(srv, reader, writer, ctx)
 
 //@ func (*Session).handleExecute
 //@   props C06 C07 C05 C02 C04
 //@   requires HOK(srv, reader, writer, ctx)
 //@   requires [caches-wellformed] PortalsWF(srv)
 //@   ensures [E-error-once] {C06} #nE <= old(#nE) + 1 && #nE >= old(#nE)
+//@   ensures [error-starts-discard] {C06} (#nE > old(#nE) ==> srv.discard) && ((#nE == old(#nE) && !#failed) ==> srv.discard == old(srv.discard))
 //@   ensures [no-Z-unless-Sync] {C06} #nZ == old(#nZ)
 //@   ensures [err-kind] result != nil ==> !isExceeded(result)
 //@   callsite iface:wire.PortalCache.Execute [by-name] {C07} $name == name && $reader == reader && $writer == writer && $ctx == ctx
@@ -730,28 +754,29 @@ package wire
 //@   ensures [ok] HOK(srv, reader, writer, ctx)
 //@   ensures [own-maps] OwnMaps(srv)
 //@   ensures [nZ-monotone] #nZ >= old(#nZ)
-//@   modifies HandlerEffects(srv, reader, writer, ctx)
+//@   modifies ExtHandlerEffects(srv, reader, writer, ctx)
 
 //@ func (*Session).handleCommand
 //@   props C06 C05 C07 C13 C19 C03 C04
 //@   requires HOK(srv, reader, writer, ctx) && conn != nil
 //@   requires [caches-wellformed] PortalsWF(srv)
 //@   ensures [sync-one-Z] {C06} (t == 'S' && result == nil) ==> (#nZ == old(#nZ) + 1 && #nOut == old(#nOut) + 1 && #nE == old(#nE))
-//@   ensures [no-Z-unless-Sync] {C06} (t != 'S' && t != 'Q') ==> #nZ == old(#nZ)
-//@   ensures [discard-after-error] {C06} (old(#discard) && t != 'S' && t != 'Q' && t != 'X') ==> (OutSame() && #nParse == old(#nParse) && #nExec == old(#nExec))
-//@   ghostset #discard = true if t != 'Q' && t != 'S' && #nE > old(#nE)
-//@   ghostset #discard = false if t == 'S' || t == 'Q'
+//@   ensures [no-Z-unless-Sync] {C06} (t == 'P' || t == 'B' || t == 'D' || t == 'E' || t == 'C' || t == 'H') ==> #nZ == old(#nZ)
+//@   ensures [discard-after-error] {C06} (old(srv.discard) && t != 'S' && t != 'X') ==> (result == nil && srv.discard && OutSame() && #nParse == old(#nParse) && #nExec == old(#nExec))
+//@   ensures [error-starts-discard] {C06} ((t == 'P' || t == 'B' || t == 'D' || t == 'E') && #nE > old(#nE)) ==> srv.discard
+//@   ensures [sync-ends-discard] {C06} (t == 'S' && result == nil) ==> !srv.discard
+//@   ensures [discard-only-after-error] {C06} (!old(srv.discard) && #nE == old(#nE) && !#failed) ==> !srv.discard
 //@   ensures [flush-silent] {C06} t == 'H' ==> (result == nil && OutSame() && #nParse == old(#nParse) && #nExec == old(#nExec))
 //@   ensures [stray-copy-ignored] {C13} (t == 'd' || t == 'c' || t == 'f') ==> (result == nil && OutSame() && #nParse == old(#nParse) && #nExec == old(#nExec))
-//@   ensures [close-complete] {C06} t == 'C' ==> (result == nil && #nZ == old(#nZ) && #nE == old(#nE) && (#failed || (#nOut == old(#nOut) + 1 && #last == '3')))
-//@   ensures [close-removes] {C07} (t == 'C' && IsDSC(srv.Statements) && old(mem(arr(reader.Msg), off(reader.Msg))) == 'S') ==> !mapdom(DSC(srv.Statements).statements, cstr(arr(old(reader.Msg)), off(old(reader.Msg)) + 1))
+//@   ensures [close-complete] {C06} (t == 'C' && !old(srv.discard)) ==> (result == nil && #nZ == old(#nZ) && #nE == old(#nE) && (#failed || (#nOut == old(#nOut) + 1 && #last == '3')))
+//@   ensures [close-removes] {C07} (t == 'C' && !old(srv.discard) && IsDSC(srv.Statements) && old(mem(arr(reader.Msg), off(reader.Msg))) == 'S') ==> !mapdom(DSC(srv.Statements).statements, cstr(arr(old(reader.Msg)), off(old(reader.Msg)) + 1))
 //@   ensures [terminate-stops] {C19} t == 'X' ==> (result != nil && #nTerminate <= old(#nTerminate) + 1 && OutSame() && #nParse == old(#nParse) && #nExec == old(#nExec))
 //@   ensures [terminate-closes] {C19} (t == 'X' && (srv.Server.TerminateConn == nil || #termErrNil)) ==> #connClosed == old(#connClosed) + 1
-//@   ensures [simple-query-one-Z] {C05} (t == 'Q' && result == nil) ==> (#nZ == old(#nZ) + 1 && #last == 'Z' && (old(#cyc) == 0 ==> #cyc == 0))
+//@   ensures [simple-query-one-Z] {C05} (t == 'Q' && result == nil && !old(srv.discard)) ==> (#nZ == old(#nZ) + 1 && #last == 'Z' && (old(#cyc) == 0 ==> #cyc == 0))
 //@   ensures [error-once] {C06 C05} #nE <= old(#nE) + 1 && #nE >= old(#nE)
 //@   ensures [cancelled-at-end] {C19} #ncancel == old(#ncancel) + 1
 //@   ensures [err-kind] (result != nil && t != 'X') ==> !isExceeded(result)
-//@   ensures [unknown-type-E] {C06} (t != 'Q' && t != 'E' && t != 'P' && t != 'D' && t != 'S' && t != 'B' && t != 'H' && t != 'd' && t != 'c' && t != 'f' && t != 'C' && t != 'X' && result == nil) ==> #nE == old(#nE) + 1
+//@   ensures [unknown-type-E] {C06} (t != 'Q' && t != 'E' && t != 'P' && t != 'D' && t != 'S' && t != 'B' && t != 'H' && t != 'd' && t != 'c' && t != 'f' && t != 'C' && t != 'X' && result == nil && !old(srv.discard)) ==> #nE == old(#nE) + 1
 //@   callsite (*wire.Session).handleSimpleQuery [derived-ctx] {C19} CtxCarries($ctx, ctx0) && uf("ctx.parent", val($ctx)) == val(ctx0)
 //@   callsite (*wire.Session).handleExecute [derived-ctx] {C19} CtxCarries($ctx, ctx0) && uf("ctx.parent", val($ctx)) == val(ctx0)
 //@   callsite (*wire.Session).handleParse [derived-ctx] {C19} CtxCarries($ctx, ctx0) && uf("ctx.parent", val($ctx)) == val(ctx0)
